@@ -45,7 +45,9 @@ def build(ctx):
     ctx.explanation = ("G (exhaustive): all 530 (number, choice) settings of sgdata.json — construction, duplicate-freedom, identity, closure under composition "
                        "and inversion modulo the lattice, centrosymmetric flag, lookup from the full list and from the reduced (LATT + SYMM) description — by executing "
                        "the real SpaceGroup code on every setting and exact integer group arithmetic. P: table-independent code paths (number range check, "
-                       "expand_latt range check, LATT value/sign as a function of centering and flag).")
+                       "expand_latt range check, LATT value/sign as a function of centering and flag; expanded_symmetry_list on two symbolic operations for every lattice type, including WHEN the "
+                       "identity is appended). G also: the reduced description in reversed / rotated order expands to the same set, and no query edits the operation list. "
+                       "B: generic public-call contracts (arguments unchanged, repeatable, history independent).")
     ctx.assumptions += ["the operations of a setting are what decode_symm_int returns for the tabulated codes (proved for all codes in C11)",
                         "finite domain: the 530 rows of the bundled sgdata.json as loaded at run time"]
     import chmpy.crystal.space_group as sgm
